@@ -9,7 +9,7 @@ from sa.astx import call_name, dotted, src, walk_local
 from sa.effects import accesses, class_accesses
 from sa.selftest import Mutant, Silent
 from sa.source import methods
-from sa.props._lib_b import (MiniBudget, MiniEval, MiniRaise, Unsupported, check_delayed_call, intra_class_calls, public_api_effects, lin_cmp, lin_cmp_text, lin_eq, linform,
+from sa.props._lib_b import (check_equality_is_identity, equality_locator_sites, MiniBudget, MiniEval, MiniRaise, Unsupported, check_delayed_call, intra_class_calls, public_api_effects, lin_cmp, lin_cmp_text, lin_eq, linform,
                               model_class, resolve_locals, swallowing_predicate, lin_text)
 
 PROPERTY = "C08"
@@ -217,7 +217,7 @@ def _check_resetter(ctx, mod, cls, Elem, name):
     try:
         for times in shapes:
             for pos in range(len(times)):
-                for new in sorted({0, times[pos] - 1, times[pos], times[(pos - 1) // 2] if pos else times[0]}):
+                for new in sorted({0, times[pos] - 1, times[pos], times[(pos - 1) // 2] if pos else times[0]} | set(times)):
                     if new > times[pos]:
                         continue
                     heap = [Elem(time=t, delayed_time=0.0) for t in times]
@@ -833,6 +833,11 @@ def check(ctx):
         for a in incs:
             ctx.check(canc is not None and a.func == f"ReactorBase.{canc}", "cancellations/counted", ctx.construct(f"{MODNAME}.{a.func}", a.node),
                       "_cancellations is incremented outside the canceller")
+    with ctx.section("calls located by identity"):
+        # heap.index(call) in the resetter (and any remove / `in` on the heap or staging list) finds a DelayedCall with ==
+        sites = equality_locator_sites(cls, {HEAP, NEW})
+        ctx.floor("identity/located-by-equality", len(sites), 1, "equality-based look-ups in ReactorBase")
+        check_equality_is_identity(ctx, mod, ctx.cls(BASE, "DelayedCall"), R, sites)
     with ctx.section("public API"):
         _check_public_api(ctx, mod, cls, canc, rst)
     with ctx.section("_insertNewDelayedCalls"):
@@ -998,4 +1003,19 @@ SILENT += [
     Silent("log-handler-from-helper", BASE, "            with logHandler:\n", "            with _pickHandler(logHandler):\n",
            more=[(BASE, "@implementer(IDelayedCall)\nclass DelayedCall:", "def _pickHandler(h):\n    if h is None:\n        return _DEFAULT_DELAYED_CALL_LOGGING_HANDLER\n"
                   "    return _log.failuresHandled(\"while handling timed call\")\n\n\n@implementer(IDelayedCall)\nclass DelayedCall:")]),
+]
+
+_DC_LT = '    def __lt__(self, other: "DelayedCall") -> bool:\n'
+MUTANTS += [
+    # value equality on DelayedCall: heap.index(call) in the resetter finds the first call with the same key, not the call that was reset
+    Mutant("delayed-call-value-equality", BASE, _DC_LT,
+           "    def __eq__(self, other: object) -> bool:\n        if not isinstance(other, DelayedCall):\n            return NotImplemented\n"
+           "        return self.time == other.time\n\n    __hash__ = object.__hash__\n\n" + _DC_LT, expect_rule="identity/located-by-equality"),
+    Mutant("delayed-call-value-equality-witness", BASE, _DC_LT,
+           "    def __eq__(self, other):\n        return self.time == other.time\n\n    __hash__ = object.__hash__\n\n" + _DC_LT,
+           expect_rule="heap/resetter-restores-order"),
+]
+SILENT += [
+    Silent("delayed-call-identity-equality-spelled-out", BASE, _DC_LT,
+           "    def __eq__(self, other: object) -> bool:\n        return self is other\n\n    __hash__ = object.__hash__\n\n" + _DC_LT),
 ]
